@@ -67,8 +67,9 @@ Section Range.
   Definition sqr_check (s : sqr) (gg hh y : G) : bool :=
     el_check (sq_el s) gg hh (sq_F s) hh (sq_F s) y.
 
-  (* create_attest_pair(PK, value, a, b, bitspace) *)
-  Definition create_attest_pair (v a b : Z) (rd : range_rand) : res (rpublic * rprivate) :=
+  (* the part of create_attest_pair after the random numbers are fixed: commitments, the three Boudot
+     proofs and the private values, from the accepted m4, m1, r1, r2 *)
+  Definition build_pair (v a b : Z) (rd : range_rand) (m4 m1 r1 r2 : Z) : rpublic * rprivate :=
     let r := d_r rd in
     let ra := d_ra rd in
     let raa := d_raa rd * d_raa rd in
@@ -80,26 +81,9 @@ Section Range.
     let ca := mul (pw c1 (b - v + 1)) (pw h ra) in
     let caa := mul (pw ca w2) (pw h raa) in
     let mst := w2 * (v - a + 1) * (b - v + 1) in
-    if mst <? 0 then Raise ValueError                    (* math.sqrt of a negative number *)
-    else
-    let k4 := Z.sqrt mst - 1 in
-    if k4 =? 0 then Raise ZeroDivisionError else
-    let m4 := d_m4 rd mod k4 in
-    if m4 =? 0 then Raise OutOfFuel                      (* `while not m4` draws again *)
-    else
     let m3 := m4 * m4 in
-    let k1 := mst - m4 in
-    if k1 =? 0 then Raise ZeroDivisionError else
-    let m1 := d_m1 rd mod k1 in
-    if m1 =? 0 then Raise OutOfFuel else
     let m2 := mst - m1 - m3 in
     let rst := w2 * ((b - v + 1) * r + ra) + raa in
-    let kr := rst / 2 - 1 in
-    if kr =? 0 then Raise ZeroDivisionError else
-    let r1 := d_r1 rd mod kr in
-    if r1 =? 0 then Raise OutOfFuel else
-    let r2 := d_r2 rd mod kr in
-    if r2 =? 0 then Raise OutOfFuel else
     let r3 := rst - r1 - r2 in
     let ca1 := mul (pw g m1) (pw h r1) in
     let ca2 := mul (pw g m2) (pw h r2) in
@@ -107,7 +91,35 @@ Section Range.
     let e := el_create (b - v + 1) (- r) ra g h c1 h (d_el rd) in
     let sqr1 := sqr_create w raa ca h (d_sq1 rd) in
     let sqr2 := sqr_create m4 r3 g h (d_sq2 rd) in
-    Ok (MkPub (MkCom c c1 c2 ca ca1 ca2 ca3 caa) e sqr1 sqr2, MkPriv m1 m2 m3 r1 r2 r3).
+    (MkPub (MkCom c c1 c2 ca ca1 ca2 ca3 caa) e sqr1 sqr2, MkPriv m1 m2 m3 r1 r2 r3).
+
+  (* create_attest_pair(PK, value, a, b, bitspace): the draws, with the conditions of the loops *)
+  Definition create_attest_pair (v a b : Z) (rd : range_rand) : res (rpublic * rprivate) :=
+    let r := d_r rd in
+    let ra := d_ra rd in
+    let raa := d_raa rd * d_raa rd in
+    let w := d_w rd in
+    let w2 := w * w in
+    let mst := w2 * (v - a + 1) * (b - v + 1) in
+    if mst <? 0 then Raise ValueError                    (* math.sqrt of a negative number *)
+    else
+    let k4 := Z.sqrt mst - 1 in
+    if k4 =? 0 then Raise ZeroDivisionError else
+    let m4 := d_m4 rd mod k4 in
+    if m4 =? 0 then Raise OutOfFuel                      (* `while not m4` draws again *)
+    else
+    let k1 := mst - m4 in
+    if k1 =? 0 then Raise ZeroDivisionError else
+    let m1 := d_m1 rd mod k1 in
+    if m1 =? 0 then Raise OutOfFuel else
+    let rst := w2 * ((b - v + 1) * r + ra) + raa in
+    let kr := rst / 2 - 1 in
+    if kr =? 0 then Raise ZeroDivisionError else
+    let r1 := d_r1 rd mod kr in
+    if r1 =? 0 then Raise OutOfFuel else
+    let r2 := d_r2 rd mod kr in
+    if r2 =? 0 then Raise OutOfFuel else
+    Ok (build_pair v a b rd m4 m1 r1 r2).
 
   (* PengBaoPublicData.check(a, b, s, t, x, y, u, v) *)
   Definition range_check (pd : rpublic) (a b s t : Z) (resp : Z * Z * Z * Z) : bool :=
